@@ -230,12 +230,22 @@ def run(ck):
         files = []
         for j in range(rng.choice([0, 1, 1, 2, 3])):
             files.append((rng.choice("SSR"), "f%d.slice" % j, rng.choice(["", "module M%d\n" % j, "module M\nstruct S%d {}\n" % j, "// c\n", "struct X {}\n", "module M\nstruct S { a: Nope }\n", "﻿", "#if X\n"])))
+        if rng.random() < 0.15:
+            # a reference directory that contains itself through symbolic links (one link, two links, two directories linking to each other)
+            files.append(("R", "refs/r.slice", "module R\ncustom C\n"))
+            for nm, tgt in rng.choice([[("refs/self", ".")], [("refs/self", "."), ("refs/again", ".")], [("refs/up", ".."), ("refs/self", ".")],
+                                       [("refs/a/to_b", "../b"), ("refs/b/to_a", "../a"), ("refs/b/up", "../..")]]):
+                if "/a/" in nm or "/b/" in nm:
+                    files.append(("X", "refs/a/x.slice", "module A\ncustom X\n"))
+                    files.append(("X", "refs/b/y.slice", "module B\ncustom Y\n"))
+                files.append(("L", nm, tgt))
+            extra += ["-R", "refs"]
         gens = [("gen-%s-%d" % (rng.choice(["ok", "ok", "bigstderr", "bigout", "bigboth", "stderr", "exit1", "noread", "sigkill", "empty"]), g), rng.choice([None, "a=b", "k"]), None) for g in range(rng.choice([0, 0, 1, 2]))]
         lines.append(dc.run_line(False, extra, gens, files))
         metas.append((extra, files, gens))
     o5 = dc.run_all(lines, chunk=15, timeout=120)
     ck.stream("command-lines", description="the real binary with random -D/-A/-G/-O/-R/--diagnostic-format/--dry-run options whose values include the empty string, blanks, separators, unknown names; "
-              "0-3 files including empty, comment-only, module-less, BOM-only and directive-only ones; 0-2 generators that behave, fail, or write a megabyte to stderr, stdout or both")
+              "0-3 files including empty, comment-only, module-less, BOM-only and directive-only ones; 0-2 generators that behave, fail, or write a megabyte to stderr, stdout or both; reference directories that contain themselves through symbolic links")
     for (extra, files, gens), line, oo in zip(metas, lines, o5):
         case = "options: %r\nfiles: %r" % (extra, [(k, n, t) for k, n, t in files])
         ck.count("command-lines", line)
